@@ -20,7 +20,7 @@ META = dict(
 )
 
 # as-built switch of the model layer (drift only): TRUE while internal/gojqx/types.go has the deviations described in DecodeValueView.tla
-AS_BUILT = 'TRUE'
+AS_BUILT = 'FALSE'   # the gojqx repairs are in /repo (known_findings.txt fixed: lines)
 TV_CFG = 'SPECIFICATION TSpec\nCONSTANTS AsBuilt = %s\nPOSTCONDITION Consumed\nCHECK_DEADLOCK FALSE\n' % AS_BUILT
 
 
